@@ -61,6 +61,9 @@ class Rec:
             raise AttributeError(name)
         return Rec('attr', self, name)
 
+    def kvc_hasattr(self, interp, name):
+        return name in self.attrs
+
     def kvc_setattr(self, interp, name, v):
         interp.ctx.event('setattr', self, name, v)
         self.attrs[name] = v
